@@ -353,12 +353,21 @@ def check_case(sub, case, acc):
         import jsonpath
 
         try:
-            a = jsonpath.findall(case["alias"], case["doc"])
-            s = jsonpath.findall(case["standard"], case["doc"])
-            if not jeq_list(a, s):
-                acc.violation("A", "alias-differs", case, expected=s, observed=a)
+            pa = jsonpath.compile(case["alias"])
+            ps = jsonpath.compile(case["standard"])
         except Exception as e:  # noqa: BLE001
-            acc.violation("A", "exception" if "doc" in case else "compile-error", case, expected=None, observed="%s: %s" % (type(e).__name__, e))
+            acc.violation("A", "compile-error", case, expected="both compile", observed="%s: %s" % (type(e).__name__, e))
+            return
+        for doc in ([case["doc"]] if "doc" in case else docs()):
+            try:
+                a = pa.findall(doc)
+                s_ = ps.findall(doc)
+                if not jeq_list(a, s_):
+                    acc.violation("A", "alias-differs", case, expected=s_, observed=a)
+                    return
+            except Exception as e:  # noqa: BLE001
+                acc.violation("A", "exception", case, expected=None, observed="%s: %s" % (type(e).__name__, e))
+                return
 
 
 def shrink(sub, case):
